@@ -804,6 +804,9 @@ func c09Scenarios() []scenario {
 		{kind: "cursor", x: 1, y: 0}, show, {kind: "sync"},
 		// cursor requests off the screen, on one axis or both, by a little or by a lot: hidden,
 		// never addressed ("no ... negative numbers")
+		// control characters in a combining list (the demos' puts() pattern puts every rune of
+		// width 0 there, and the width table says 0 for controls): never written to the terminal
+		{kind: "set", x: 0, r: 'q', comb: []rune{0x07}}, {kind: "set", x: 1, r: 'q', comb: []rune{0x9b, 0x1b}}, {kind: "set", x: 2, r: 'q', comb: []rune{0x0301, 0x0e, 0x7f}},
 		{kind: "cursor", x: -3, y: 0}, {kind: "cursor", x: 1, y: -2}, {kind: "cursor", x: -1, y: -1}, {kind: "cursor", x: 4, y: 0}, {kind: "cursor", x: -1000, y: 1000},
 	}
 	return []scenario{{"X-extreme-values-4x1", 4, 1, ops, 3, 4, nil}}
